@@ -81,7 +81,7 @@ where
     } else {
         conf.sched.clone()
     };
-    let trace = if matches!(spec.kind, SchedKind::Trace) { conf.trace.clone() } else { None };
+    let trace = if matches!(spec.kind, SchedKind::Trace | SchedKind::TracePrefix) { conf.trace.clone() } else { None };
     let scheduler = SimScheduler::new(spec, trace, Arc::clone(&log));
     let mut cfg = shuttle::Config::new();
     cfg.stack_size = 1 << 20;
